@@ -529,7 +529,7 @@ class C20Check(Check):
             try:
                 from skactiveml.utils import check_random_state, simple_batch
 
-                fresh = simple_batch(ref_u, check_random_state(sc["seed"], int(np.sum(np.isnan(y))) + 1), batch_size=1)
+                fresh = simple_batch(ref_u.copy(), check_random_state(sc["seed"], int(np.sum(np.isnan(y))) + 1), batch_size=1)
                 inner_pick_is_seed_function = int(np.asarray(fresh).ravel()[0]) == ri
             except Exception:
                 inner_pick_is_seed_function = False
